@@ -1110,6 +1110,18 @@ _GATE_NAME_TO_QASM_NAME = {
 }
 
 
+def _qasm_real(value):
+    """
+    Text of a gate parameter. OpenQASM 2.0 numbers with an exponent need a
+    decimal point: ``1e-20`` is written ``1.0e-20``.
+    """
+    text = "{}".format(value)
+    mantissa, exp, exponent = text.partition("e")
+    if exp and mantissa.lstrip("-").isdigit():
+        text = mantissa + ".0e" + exponent
+    return text
+
+
 class QasmOutput:
     """
     Class for QASM export.
@@ -1166,7 +1178,9 @@ class QasmOutput:
 
         if q_args is not None:
             if isinstance(q_args, (list, tuple, np.ndarray)):
-                q_args = ",".join([str(arg) for arg in q_args])
+                q_args = ",".join([_qasm_real(arg) for arg in q_args])
+            else:
+                q_args = _qasm_real(q_args)
             return "{}({}) {};".format(q_name, q_args, q_regs)
         else:
             return "{} {};".format(q_name, q_regs)
